@@ -117,7 +117,7 @@ def gen_project(rng: random.Random, size: str = 'small') -> T.Dict[str, T.Any]:
     have_subp = rng.random() < 0.35
     for j in range(n_lib):
         use = rng.sample(hdrs, min(len(hdrs), rng.randint(0, 3)))
-        kind = rng.choice(['static_library', 'static_library', 'shared_library', 'both_libraries'])
+        kind = rng.choice(['static_library', 'shared_library', 'shared_library', 'both_libraries'] if big else ['static_library', 'static_library', 'shared_library', 'both_libraries'])
         e = {'kind': 'lib', 'name': f'l{j}', 'libkind': kind, 'uses': [h['name'] for h in use], 'seg': seg_for(pos, order_total),
              'hdr_via': rng.choice(['sources', 'dep', 'sources']), 'link_with': [], 'link_whole': [], 'pairs': [], 'gsrcs': [], 'subp': False}
         for prev in libs:
@@ -175,6 +175,20 @@ def gen_project(rng: random.Random, size: str = 'small') -> T.Dict[str, T.Any]:
             e2 = {'kind': 'exe', 'name': 'elast', 'uses': ['hr'], 'seg': r['seg'], 'hdr_via': 'sources', 'link_with': [], 'deps': [], 'pairs': [],
                   'pair_hdr_only': [], 'gsrcs': [], 'subp': False}
             ents.append(e2)
+    if big and rng.random() < 0.7:
+        # spread layout: every library lives in its own subdirectory, consumers at the top level again
+        segs = ['', 'sd1', 'sd2', 'sd3', 'sd4', '']
+        nlib = 0
+        for e in ents:
+            if e['kind'] == 'lib':
+                nlib += 1
+                e['seg'] = min(4, nlib)
+            elif e['kind'] == 'dep':
+                e['seg'] = min(4, max(1, nlib))
+            elif e['kind'] in ('exe', 'run') or e['name'] in ('hr', 'elast'):
+                e['seg'] = 5
+            else:
+                e['seg'] = min(e['seg'], 1) if nlib == 0 else min(4, max(1, nlib))
     # segments must be non-decreasing in definition order
     cur = 0
     for e in ents:
